@@ -25,7 +25,7 @@ Proof.
   apply map_eq. intros x. rewrite vreset_lookup, lookup_empty.
   destruct (c !! x); [by rewrite N.leb_refl|done].
 Qed.
-Lemma vreset_empty_l c : vreset ∅ c = ∅.
+Lemma vreset_empty_left c : vreset ∅ c = ∅.
 Proof. apply map_eq. intros x. by rewrite vreset_lookup, lookup_empty. Qed.
 Lemma vreset_covered a c : vwf a → vleq a c → vreset a c = ∅.
 Proof.
@@ -60,10 +60,10 @@ Proof.
   intros x. rewrite !vmerge_get, !vreset_get, !vmerge_get.
   repeat case_match; lia.
 Qed.
-Lemma vleq_empty a : vleq ∅ a.
+Lemma vleq_empty_min a : vleq ∅ a.
 Proof. intros x. rewrite vget_empty. lia. Qed.
 Lemma vleq_empty_inv a : vwf a → vleq a ∅ → a = ∅.
-Proof. intros Ha H. apply vleq_antisym; [done|apply vwf_empty|done|apply vleq_empty]. Qed.
+Proof. intros Ha H. apply vleq_antisym; [done|apply vwf_empty|done|apply vleq_empty_min]. Qed.
 
 Theorem reset_vclock_laws (a c c1 c2 : gmap N N) :
   vwf a →
@@ -157,7 +157,7 @@ Proof.
   intros Hk. destruct (wreset k c1) as [k1|] eqn:E; simpl.
   - apply wreset_Some in E as [-> _]. unfold wreset. simpl. by rewrite vreset_vreset.
   - apply wreset_None in E. symmetry. apply wreset_None.
-    by rewrite <- vreset_vreset, E, vreset_empty_l.
+    by rewrite <- vreset_vreset, E, vreset_empty_left.
 Qed.
 Lemma wreset_idem k c : wreset k c ≫= (λ k', wreset k' c) = wreset k c.
 Proof.
@@ -264,7 +264,7 @@ Section deferred.
       + intros [Hk (k0 & [ms H0] & <-)]. split; [done|]. exists (vreset k0 c1).
         rewrite vreset_vreset by (by eapply Hwf). split; [|done].
         apply oreset_deferred_dom. split; [|by eauto].
-        intros E. apply Hk. by rewrite <- vreset_vreset, E, vreset_empty_l by (by eapply Hwf).
+        intros E. apply Hk. by rewrite <- vreset_vreset, E, vreset_empty_left by (by eapply Hwf).
     - intros k m. rewrite !oreset_deferred_mem. split.
       + intros [Hk (k1 & ms1 & H1 & Hm & <-)].
         assert (m ∈ default ∅ (oreset_deferred df c1 !! k1)) as Hm1 by (by rewrite H1).
@@ -273,7 +273,7 @@ Section deferred.
       + intros [Hk (k0 & ms & H0 & Hm & <-)]. split; [done|].
         assert (m ∈ default ∅ (oreset_deferred df c1 !! vreset k0 c1)) as Hm1.
         { apply oreset_deferred_mem. split; [|by eauto 6].
-          intros E. apply Hk. by rewrite <- vreset_vreset, E, vreset_empty_l by (by eapply Hwf). }
+          intros E. apply Hk. by rewrite <- vreset_vreset, E, vreset_empty_left by (by eapply Hwf). }
         destruct (oreset_deferred df c1 !! vreset k0 c1) as [ms1|] eqn:H1; simpl in Hm1; [|set_solver].
         exists (vreset k0 c1), ms1. split_and!; [done..|]. apply vreset_vreset. by eapply Hwf.
   Qed.
@@ -398,7 +398,7 @@ Proof.
     + eapply vleq_trans; [apply vmerge_ub_l|done].
     + constructor; [|done]. simpl. eapply vleq_trans; [apply vmerge_ub_r|done].
 Qed.
-Lemma mvclock_ub s : Forall (λ p, vleq p.1 (mvclock s)) s.
+Lemma mvclock_ub_all s : Forall (λ p, vleq p.1 (mvclock s)) s.
 Proof. apply mvclock_fold_ub. Qed.
 
 (** The register's clock (the join of the value clocks) is reset too. *)
@@ -419,7 +419,7 @@ Lemma mvclock_mvreset s c :
   Forall (λ p, vwf p.1) s → mvclock (mvreset s c) = vreset (mvclock s) c.
 Proof.
   intros Hs. unfold mvclock. rewrite <- (mvclock_fold_reset s c ∅ vwf_empty Hs).
-  by rewrite vreset_empty_l.
+  by rewrite vreset_empty_left.
 Qed.
 
 Theorem reset_mvreg_laws (s : list (gmap N N * N)) (c c1 c2 : gmap N N) :
@@ -438,7 +438,7 @@ Proof.
   - apply mvreset_empty. eapply Forall_impl; [exact Hs|]. by intros ? [_ ?].
   - by apply mvreset_mvreset.
   - apply mvreset_idem.
-  - apply mvreset_covered. pose proof (mvclock_ub s) as Hub.
+  - apply mvreset_covered. pose proof (mvclock_ub_all s) as Hub.
     apply Forall_and. done.
   - by apply mvreset_wf.
 Qed.
@@ -502,7 +502,7 @@ Section entries.
 End entries.
 
 (** * Orswot *)
-Definition owf (s : orswot) : Prop :=
+Definition orswot_wf (s : orswot) : Prop :=
   vwf (oclock s) ∧
   (∀ m k, oentries s !! m = Some k → vwf k ∧ k ≠ ∅ ∧ vleq k (oclock s)) ∧
   dwf (odeferred s).
@@ -512,7 +512,7 @@ Lemma oreset_unfold s c :
                       (oreset_deferred (odeferred s) c).
 Proof. done. Qed.
 
-(** Each law under the part of [owf] it really needs. *)
+(** Each law under the part of [orswot_wf] it really needs. *)
 Lemma oreset_empty s :
   (∀ m k, oentries s !! m = Some k → k ≠ ∅) →
   (∀ k ms, odeferred s !! k = Some ms → k ≠ ∅) →
@@ -536,7 +536,7 @@ Lemma oreset_self s :
   (∀ m k, oentries s !! m = Some k → vwf k ∧ vleq k (oclock s)) →
   oreset s (oclock s) = Orswot ∅ ∅ (oreset_deferred (odeferred s) (oclock s)).
 Proof. intros He. by rewrite oreset_unfold, vreset_self, ereset_covered. Qed.
-Lemma oreset_wf s c : owf s → owf (oreset s c).
+Lemma oreset_wf s c : orswot_wf s → orswot_wf (oreset s c).
 Proof.
   intros (Hc & He & Hd). rewrite oreset_unfold. split_and!; simpl.
   - by apply vreset_wf.
@@ -548,7 +548,7 @@ Proof.
 Qed.
 
 Theorem reset_orswot_laws (s : orswot) (c c1 c2 : gmap N N) :
-  owf s →
+  orswot_wf s →
   (* (a) *) oclock (oreset s c) = vreset (oclock s) c ∧
             (∀ m k, oentries (oreset s c) !! m = Some k ↔
                     ∃ k0, oentries s !! m = Some k0 ∧ ¬ vleq k0 c ∧ k = vreset k0 c) ∧
@@ -563,7 +563,7 @@ Theorem reset_orswot_laws (s : orswot) (c c1 c2 : gmap N N) :
             (oreset s (oclock s) = onew ↔
              ∀ k ms, odeferred s !! k = Some ms → vleq k (oclock s)) ∧
             (odeferred s = ∅ → oreset s (oclock s) = onew) ∧
-  (* (f) *) owf (oreset s c).
+  (* (f) *) orswot_wf (oreset s c).
 Proof.
   intros Hs. pose proof Hs as (Hc & He & Hd).
   assert (∀ m k, oentries s !! m = Some k → vwf k) as He1.
@@ -812,7 +812,7 @@ Proof.
   - intros s c1 c2 Hs. by apply mvreset_mvreset, mvwf_vwf.
   - intros s c Hs. by apply mvreset_wf, mvwf_vwf.
 Qed.
-Lemma orswot_reset_ok : reset_ok orswot_valops owf.
+Lemma orswot_reset_ok : reset_ok orswot_valops orswot_wf.
 Proof.
   constructor; simpl.
   - intros s Hs. by apply (reset_orswot_laws s ∅ ∅ ∅ Hs).
@@ -824,13 +824,13 @@ Theorem reset_mapmv_laws (s : cmap (list (gmap N N * N))) (c c1 c2 : gmap N N) :
   mwf mvwf s → map_reset_laws mvreg_valops mvwf s c c1 c2.
 Proof. apply reset_map_laws, mvreg_reset_ok. Qed.
 Theorem reset_mapor_laws (s : cmap orswot) (c c1 c2 : gmap N N) :
-  mwf owf s → map_reset_laws orswot_valops owf s c c1 c2.
+  mwf orswot_wf s → map_reset_laws orswot_valops orswot_wf s c c1 c2.
 Proof. apply reset_map_laws, orswot_reset_ok. Qed.
 Theorem reset_mapmm_laws (s : cmap (cmap (list (gmap N N * N)))) (c c1 c2 : gmap N N) :
   mwf (mwf mvwf) s → map_reset_laws (map_valops mvreg_valops) (mwf mvwf) s c c1 c2.
 Proof. apply reset_map_laws, map_valops_reset_ok, mvreg_reset_ok. Qed.
 Theorem reset_mapmo_laws (s : cmap (cmap orswot)) (c c1 c2 : gmap N N) :
-  mwf (mwf owf) s → map_reset_laws (map_valops orswot_valops) (mwf owf) s c c1 c2.
+  mwf (mwf orswot_wf) s → map_reset_laws (map_valops orswot_valops) (mwf orswot_wf) s c c1 c2.
 Proof. apply reset_map_laws, map_valops_reset_ok, orswot_reset_ok. Qed.
 
 (** * Non-vacuity: concrete well-formed states *)
@@ -842,14 +842,14 @@ Proof.
   apply elem_of_list_In, H, andb_true_iff in Hp as [H1 H2]. split; [by apply vwfb_spec|].
   intros E. apply negb_true_iff in H2. apply vis_empty_spec in E. congruence.
 Qed.
-Definition owfb (s : orswot) : bool :=
+Definition orswot_wfb (s : orswot) : bool :=
   vwfb (oclock s)
   && bool_decide (map_Forall (λ (_ : N) (k : gmap N N),
        vwfb k = true ∧ k ≠ ∅ ∧ vdominates (oclock s) k = true) (oentries s))
   && bool_decide (map_Forall (λ (k : gmap N N) (_ : gset N), vwfb k = true ∧ k ≠ ∅) (odeferred s)).
-Lemma owfb_sound s : owfb s = true → owf s.
+Lemma orswot_wfb_sound s : orswot_wfb s = true → orswot_wf s.
 Proof.
-  unfold owfb. rewrite !andb_true_iff, !bool_decide_eq_true, vwfb_spec.
+  unfold orswot_wfb. rewrite !andb_true_iff, !bool_decide_eq_true, vwfb_spec.
   intros [[Hc He] Hd]. split_and!; [done|..].
   - intros m k H. destruct (He m k H) as (H1 & H2 & H3).
     split_and!; [by apply vwfb_spec|done|by apply vdom_true].
@@ -863,8 +863,8 @@ Definition ex_orswot : orswot :=
          {[ 7 := {[ 1 := 1 ]}; 9 := {[ 3 := 2 ]} ]}
          {[ ({[ 1 := 1; 2 := 2 ]} : gmap N N) := ({[ 7 ]} : gset N);
             ({[ 1 := 2; 2 := 2 ]} : gmap N N) := ({[ 9 ]} : gset N) ]}.
-Example ex_orswot_wf : owf ex_orswot.
-Proof. apply owfb_sound. by vm_compute. Qed.
+Example ex_orswot_wf : orswot_wf ex_orswot.
+Proof. apply orswot_wfb_sound. by vm_compute. Qed.
 Example ex_orswot_collide :
   (* concurrent clock: the two pending removes end up under the same clock *)
   oreset ex_orswot {[ 1 := 2 ]} =
@@ -910,8 +910,8 @@ Proof. apply (bool_decide_unpack _). by vm_compute. Qed.
 
 Definition ex_mapor : cmap orswot :=
   CMap {[ 1 := 1; 3 := 2 ]} {[ 20 := MEntry {[ 1 := 1; 3 := 2 ]} ex_orswot ]} ∅.
-Example ex_mapor_wf : mwf owf ex_mapor.
-Proof. apply (mwfb_sound owf owfb); [apply owfb_sound|by vm_compute]. Qed.
+Example ex_mapor_wf : mwf orswot_wf ex_mapor.
+Proof. apply (mwfb_sound orswot_wf orswot_wfb); [apply orswot_wfb_sound|by vm_compute]. Qed.
 Example ex_mapor_reset :
   mreset orswot_valops ex_mapor {[ 1 := 2 ]} =
     CMap {[ 3 := 2 ]}
